@@ -32,6 +32,28 @@ FIRST_MISSED = {
     'C12-t2': 'late restart request after the final state',
     'C12-t3': 'slow-failing restart submission of a repeating engine',
     'C13-t3': 'part B: producers that write output only at exit',
+    'C01-t2': 'DoWhile of two components whose condition component outlives the looped one (first evaluation was masked by a false alarm of C02, since corrected)',
+    'C01-t1': 'DoWhile with a same-stage consumer + line-level preemption in finishedCheck (first evaluation was masked by a false alarm of C02, since corrected)',
+    'C01-v3': 'operator pause / wake-up scenarios with line-level preemption in wake_up and a long stall',
+    'C02-v2': 'memoization scenarios (fake component database: hit / fetch fails)',
+    'C02-v3': 'caught by C01 (same edit as C01-t1); C02 does not judge shut-down loop iterations',
+    'C13-v1': 'part B: observer of two producers with the same name in different stages',
+    'C13-v2': 'part B: cross-stage producer listed before a same-stage subject that writes only at exit',
+    'C13-v3': 'part C: conformance of the virtual output listing with the real WorkingDirectory code',
+    'C03-u1': 'platform dimension (count resolved on a non-default platform)', 'C03-u2': 'family F: path spellings incl. trailing separators',
+    'C03-u3': 'replicate/aggregate through a component variable defined via another variable, decoys in siblings',
+    'C04-u1': 'caught by C08 (read-only probes instance() / raw lookups + stage blueprints), not by C04',
+    'C04-u2': 'caught by the C08 history search, not by C04',
+    'C06-u3': 'family entry-override (override_entrypoint_args layered on the entrypoint arguments)',
+    'C08-u1': 'interpreter component (expandArguments fix-up) in the documents', 'C08-u2': 'whole-section update of a re-added component',
+    'C09-u1': 'layer hist: manifest replaced by parametrize()', 'C09-u2': 'application-dependency spellings (absolute / trailing slash)',
+    'C10-u3': 'family repeating-stdout (retained stream sets of a repeating producer)',
+    'C11-u2': 'user variables file as part of the mutated document set', 'C11-u3': 'non-integral float for integer options',
+    'C15-u3': 'package directories readable in several formats + identified set conf.format_priority',
+    'C16-u1': 'bases stdout/streams (repeating producer histories)', 'C16-u3': 'observation through ComponentState/Controller.can_memoize with an in-memory database',
+    'C17-u1': 'environments that are defined but empty', 'C17-u3': 'relational oracle: all spellings of one selection behave alike',
+    'C18-u1': 'link-chain archives (each link lexically inside, composition escapes)', 'C18-u3': 'links inside copied manifest folders named like files written later',
+    'C19-u1': 'family backendvar + process histories', 'C19-u2': 'families rewrite (same directory) and history (same process)',
 }
 rows = []
 for d in sorted(glob.glob('/verif/seeded/*/meta.json')):
